@@ -5,4 +5,6 @@
 hexs() { printf '%s' "$1" | od -An -v -tx1 | tr -d ' \n'; }
 printf '%s\t%s\t%s\t%s\t%s\n' "$(date +%s.%N)" "$#" "$(hexs "$1")" "$(hexs "$2")" "$(hexs "$3")" >> "$AUTH_DIR/log"
 [ "$1" = "tag" ] || exit 2
+# a helper that dies from a signal has not accepted anybody
+[ "$2" = "crashme" ] && kill -ABRT $$
 grep -qxF "$(hexs "$2"):$(hexs "$3")" "$AUTH_DIR/table"
